@@ -108,6 +108,9 @@ func genC08(rng *Rng, workdir string) *engSession {
 						pl.fresh = !had || !tBefore.MidTrip()
 					}
 					code := s.submit(i, []flap.VerifFlight{f}, uint64(f.Start)-early, true)
+					if code == 1 && had && !tBefore.MidTrip() && keptDue(&tBefore, uint64(f.Start)+1500) {
+						s.fail("C08", "kept-promise-due-but-checkin-refused", fmt.Sprintf("traveller %d holds a kept promise whose clearance date has passed, yet the check-in at %d was refused as grounded", i, f.Start))
+					}
 					if code != 0 {
 						pl.refused = true
 						if pl.next == 0 || !(had && tBefore.MidTrip()) {
@@ -186,15 +189,115 @@ func genC08(rng *Rng, workdir string) *engSession {
 	return s
 }
 
+// genC08Burst: a kept promise is still pending (balance negative because the Daily Total was cut after
+// the predictions were made) while the traveller books ten or more further trips, pushing the kept
+// promise's entry out of the ten-slot book; the next check-in falls after its clearance date.
+func genC08Burst(rng *Rng, workdir string) *engSession {
+	s := newEngSession(workdir, "C08")
+	var p flap.FlapParams
+	p.TripLength = flap.Days(rng.Range(6, 12))
+	p.FlightsInTrip = uint64(rng.Range(5, 9))
+	p.FlightInterval = flap.Days(rng.Range(1, 2))
+	p.DailyTotal = flap.Kilometres(500 + 1500*rng.F01())
+	p.MinGrounded = uint64(rng.Range(1, 2))
+	p.Promises.Algo = flap.PromisesAlgo(1 + rng.Intn(2))
+	p.Promises.MaxPoints = uint32(rng.Range(8, 12))
+	p.Promises.MaxDays = flap.Days(rng.Range(36, 50))
+	p.Promises.MaxStackSize = flap.StackIndex(rng.Range(2, 4))
+	p.Promises.SmoothWindow = flap.Days(rng.Range(0, 2))
+	p.Promises.Degree = 1
+	p.Threads = 1
+	s.setParams(p)
+	used := map[string]bool{}
+	s.addTraveller(passportWithPrefix(rng, -1, used))
+	day := uint64(rng.Range(17500, 19500))
+	leg := func(d uint64, sec uint64, a, b int, dist float64) flap.VerifFlight {
+		st := d*86400 + sec
+		return flap.VerifFlight{Start: flap.EpochTime(st), End: flap.EpochTime(st + 4000), From: icaoOf(a), To: icaoOf(b), Distance: flap.Kilometres(dist)}
+	}
+	for k := 0; k < rng.Range(4, 7); k++ { // warm the predictor up
+		s.update(day * 86400)
+		day++
+	}
+	// trip A: out and back, promised
+	dA := 1500 + 3000*rng.F01()
+	out, back := leg(day+1, 30000, 1, 2, dA/2), leg(day+2, 30000, 2, 1, dA/2)
+	s.update(day * 86400)
+	code, slot := s.propose(0, []flap.VerifFlight{back, out}, 0, day*86400+10)
+	if code != 0 || s.make(0, slot, day*86400+20, s.props[slot].VerifVersion()) != 0 {
+		return s
+	}
+	day++
+	s.update(day * 86400)
+	s.submit(0, []flap.VerifFlight{out}, uint64(out.Start), true)
+	day++
+	s.update(day * 86400)
+	s.submit(0, []flap.VerifFlight{back}, uint64(back.Start)-100, true)
+	day++
+	s.update(day * 86400) // keeps the promise
+	t, _ := s.get(0)
+	if t.Kept.TripStart == 0 {
+		return s
+	}
+	s.stat["c08_kept"]++
+	// the Daily Total collapses: the debt will still be there at the clearance date
+	p.DailyTotal = p.DailyTotal / flap.Kilometres(20+80*rng.F01())
+	s.setParams(p)
+	// book 10-12 further small trips, all today
+	nb := rng.Range(9, 12)
+	var first flap.VerifFlight
+	d0 := uint64(t.Kept.Clearance)/86400 + uint64(rng.Range(1, 3))
+	made := 0
+	for k := 0; k < nb; k++ {
+		f := leg(d0+uint64(3*k), uint64(rng.Range(1000, 50000)), 1+k%3, 2+k%3, 20.5+40*rng.F01())
+		c, sl := s.propose(0, []flap.VerifFlight{f}, 0, day*86400+uint64(100+k))
+		if c == 0 && s.make(0, sl, day*86400+uint64(200+k), s.props[sl].VerifVersion()) == 0 {
+			made++
+			if made == 1 {
+				first = f
+			}
+		}
+	}
+	s.stat["c08_burst_promises"] += made
+	if made == 0 {
+		return s
+	}
+	// live up to the first of them
+	for day+1 <= uint64(first.Start)/86400 {
+		day++
+		s.update(day * 86400)
+	}
+	tb, _ := s.get(0)
+	due := keptDue(&tb, uint64(first.Start)+1500)
+	codeF := s.submit(0, []flap.VerifFlight{first}, uint64(first.Start), true)
+	if due && tb.Balance < 0 {
+		s.stat["c08_kept_used_in_debt_after_burst"]++
+		if made >= 10 {
+			s.stat["c08_kept_entry_left_the_book"]++
+		}
+		if codeF == 1 {
+			s.fail("C08", "kept-promise-due-but-checkin-refused", fmt.Sprintf("after %d further promises the traveller (balance %v) was refused at %d although the kept promise's clearance date %d had passed", made, float64(tb.Balance), first.Start, tb.Kept.Clearance))
+		}
+	}
+	day++
+	s.update(day * 86400)
+	return s
+}
+
 func runC08(o *Out, rng *Rng, tier string, replay string) {
 	n := engCounts(tier)
 	o.sum.Rule = "case = engine history in which travellers obtain promises for trips of 1-6 legs (non-dyadic distances, proposal order shuffled against flying order, taxi overhead on/off, explicit or implicit trip end, both predictors, correction options), fly them leg by leg, and keep proposing while trips are in progress and while kept promises are pending; compared under the C08 projection (kept promise, mid-trip flag and promise book after every operation, all result codes); Go monitor: a fully flown promised trip is recorded as kept by the first update after its last leg, the check-in that uses a kept promise consumes it; non-trivial = a promise of 3 or more legs was kept and a kept promise was later used; distinct by script hash"
 	wd := filepath.Join(o.dir, "dbs")
 	for c := 0; c < n; c++ {
-		s := genC08(rng.Fork(), wd)
+		var s *engSession
+		if c%5 == 4 {
+			s = genC08Burst(rng.Fork(), wd)
+		} else {
+			s = genC08(rng.Fork(), wd)
+		}
 		keepFails(o, s, "C08")
 		engNote(o, s)
-		o.AddCase(List(s.coq), s.stat["c08_kept_3_or_more_legs"] > 0 && s.stat["c08_kept_promise_used"] > 0, s.ops)
+		o.AddCase(List(s.coq), (s.stat["c08_kept_3_or_more_legs"] > 0 && s.stat["c08_kept_promise_used"] > 0) || s.stat["c08_kept_entry_left_the_book"] > 0, s.ops)
 		s.close()
 	}
 	engFlush(o, "C08")
